@@ -23,7 +23,8 @@ def run(r):
         for sl in sls:
             tag = "t%d-g%d-%d" % (ntok, gl, sl)
             tr = r.path("ptrace-%s.ndjson" % tag)
-            res = pure.model_to_code(r, "TrimMC", cfg(ntok, gl, al, ns, sl, base=base), "trim", tag, extra_kw={"trace": tr})
+            res = pure.model_to_code(r, "TrimMC", cfg(ntok, gl, al, ns, sl, base=base), "trim", tag, extra_kw={"trace": tr},
+                                      sort_key=lambda c: (json.dumps([c["lm"], c["rm"]]), -sum(len(g) for g in c["gaps"]) if hash(json.dumps(c["lm"])) % 2 else sum(len(g) for g in c["gaps"]), json.dumps(c["gaps"])))
             # the probe traces of the same runs against the trim actions of ParsleyMachine (conformance; a rejection is drift)
             v = parsefam.validate_traces(r, [tr], [])
             stats.append({"tokens": ntok, "gaplen": gl, "slice": "%d/%d" % (sl, ns), "cases": res["cases"], "states": res["states"], "machine_traces": v})
